@@ -36,9 +36,63 @@ def tar_work(a):
     return res
 
 
+def boundary_work(a):
+    """lookup tables whose size is exactly k * 8192 bytes (and the neighbours): 2048 ids, 1024 inodes with -e, 512 fragment blocks"""
+    bdir, name, n = a
+    res = {"images": 0, "invalid": [], "err": None, "case": {"boundary": name, "n": n}, "layouts": []}
+    try:
+        with Scratch("c03b") as cd:
+            lines = []
+            argv = ["-c", "gzip", "-b", "4096", "-q", "-j", "2"]
+            if name == "ids":
+                # root has id 0; n distinct ids in total
+                for i in range(1, n):
+                    lines.append(b"pipe /p%05d 0644 %d %d" % (i, i, i))
+            elif name == "export":
+                argv.append("-e")
+                for i in range(n - 1):      # + root
+                    lines.append(b"pipe /p%05d 0644 0 0" % i)
+            else:                           # fragment blocks: two incompressible, distinct 2048 byte tails per 4096 byte fragment block
+                os.makedirs(os.path.join(cd, "in"))
+                r = rng(n, "c03frag")
+                for i in range(2 * n):
+                    with open(os.path.join(cd, "in", "f%d" % i), "wb") as f:
+                        f.write(i.to_bytes(4, "little") + r.randbytes(2044))
+                    lines.append(b"file /f%05d 0644 0 0 in/f%d" % (i, i))
+            with open(os.path.join(cd, "pack.txt"), "wb") as f:
+                f.write(b"\n".join(lines) + b"\n")
+            case = pipelines.Case(n, "gen-packfile", {})
+            case.tool = "gensquashfs"
+            case.out_image = "out.sqfs"
+            case.outputs = {"image": "out.sqfs"}
+            case.argv = argv + ["-F", "pack.txt", "-D", ".", "out.sqfs"]
+            res["case"]["argv"] = case.argv
+            o = pipelines.run_case(bdir, case, cd, "seed %d\nsched random\n" % (n + 1), "plain", timeout=300, cpu=120)
+            if o.rc != 0:
+                res["invalid"].append({"clause": "packer-refused-boundary-input", "detail": o.verdict + " " + o.stderr[-200:].decode(errors="replace"), "comp": "gzip"})
+                return res
+            img = sqfsdec.decode(os.path.join(cd, "out.sqfs"), want_content=(name == "frags"))
+            res["images"] = 1
+            if not img.ok():
+                res["invalid"].append({"clause": "undecodable", "detail": img.errors[0], "comp": "gzip"})
+                return res
+            got = {"ids": len(img.ids), "export": len(img.export or []), "frags": len(img.frags)}[name]
+            if got != n:
+                res["err"] = "boundary case %s: wanted %d table entries, image has %d" % (name, n, got)
+            for inv in img.invalid:
+                res["invalid"].append({"clause": re.sub(r"\d+", "N", re.sub(r"b'.*?'", "_", inv))[:80], "detail": inv, "comp": "gzip"})
+            res["layouts"].append(repr(("gzip", "boundary", name, n)))
+    except Exception as e:
+        res["err"] = "%s: %s" % (type(e).__name__, e)
+    return res
+
+
 def replay(spec, bdir=None):
     bdir = bdir or vfbuild.build()
-    if spec.get("source") == "tar2sqfs":
+    if spec.get("source") == "boundary":
+        r = boundary_work((bdir, spec["case"]["boundary"], spec["case"]["n"]))
+        found = [x for x in r["invalid"] if x["clause"] == spec["clause"]]
+    elif spec.get("source") == "tar2sqfs":
         r = tar_work((bdir, spec["case"]["seed"], spec["case"]["profile"]))
         found = [x for x in r["invalid"] if x["clause"] == spec["clause"]]
     else:
@@ -57,6 +111,13 @@ def main():
     tprofs = [{"nfiles": 8, "ndirs": 3, "xattrs": True, "hardlinks": True}, {"nfiles": 6, "ndirs": 2, "big": True}, {"nfiles": 3, "bigdir": 280}]
     titems = [(bdir, derive(seed, "c03tar", i) >> 1, tprofs[i % len(tprofs)]) for i in range(24 if t == "quick" else 400)]
     tres = pmap(tar_work, titems)
+    bitems = [(bdir, name, k * per + d) for name, per in (("ids", 2048), ("export", 1024), ("frags", 512)) for k in ((1,) if t == "quick" else (1, 2, 3))
+              for d in (-1, 0, 1)]
+    bres = pmap(boundary_work, bitems)
+    for r in bres:
+        for v in r["invalid"]:
+            v["boundary"] = True
+    tres = tres + bres
     for r in results + tres:
         if r["err"]:
             rep.harness_error(r["err"])
@@ -68,7 +129,7 @@ def main():
             seen.setdefault(key, ("gen", r, v))
     for r in tres:
         for v in r["invalid"]:
-            seen.setdefault("tar2sqfs:%s:%s" % (v["comp"], v["clause"]), ("tar", r, v))
+            seen.setdefault("%s:%s:%s" % ("boundary-" + r["case"]["boundary"] if v.get("boundary") else "tar2sqfs", v["comp"], v["clause"]), ("tar", r, v))
     for key, (src, r, v) in sorted(seen.items()):
         if src == "gen":
             casespec = {"seed": r["case"]["seed"], "kind": r["case"]["kind"], "profile": r["case"]["profile"]}
@@ -79,6 +140,9 @@ def main():
             spec = {"property": PROP, "source": "gensquashfs", "case": casespec, "i": v["i"], "clause": v["clause"], "argv": v["cfg"]["argv"],
                     "plan": v["plan"], "detail": v["detail"]}
             text = "gensquashfs %s: %s" % (" ".join(v["cfg"]["argv"]), v["detail"])
+        elif v.get("boundary"):
+            spec = {"property": PROP, "source": "boundary", "case": r["case"], "clause": v["clause"], "detail": v["detail"]}
+            text = "gensquashfs %s (%s table with %d entries): %s" % (" ".join(r["case"]["argv"]), r["case"]["boundary"], r["case"]["n"], v["detail"])
         else:
             casespec = {"seed": r["case"]["seed"], "profile": r["case"]["profile"]}
             spec = {"property": PROP, "source": "tar2sqfs", "case": casespec, "clause": v["clause"], "detail": v["detail"]}
